@@ -76,6 +76,10 @@ func VerifHarness_Step(lo, hi, fork uint64) {
 	// operand stack: exactly what the instruction needs, plus one word below it
 	extra := verifParam("extradepth")
 	need := uint64(operation.minStack)
+	if op >= RSVJNAL && op <= VRJNAL {
+		// exactly the operands the instruction is specified to consume (not what the table declares)
+		need = uint64(verifJournalPops(op))
+	}
 	words := make([]uint256.Int, 0, 20)
 	for i := uint64(0); i < need+extra; i++ {
 		words = append(words, verifU256("stack"))
@@ -175,6 +179,8 @@ func VerifHarness_Step(lo, hi, fork uint64) {
 	// ---- C12: the journal instructions cost the same flat fee whatever the operands
 	if op >= RSVJNAL && op <= VRJNAL {
 		verifReach("journal-op")
+		_, under := err.(*ErrStackUnderflow)
+		verifAssert(!under, "C12: a journal instruction given its operands does not fail on the declared stack bounds")
 		if err == nil {
 			verifAssert(used == params.SloadGasEIP2200, "C12: flat non-zero fee for every journal instruction")
 		}
